@@ -135,7 +135,7 @@ def add_obligations(res, tree: Tree, rule: str, only_mask_tables: bool = False) 
 
     def ob(site, fn, construct, ok, detail):
         nonlocal n
-        res.add(rule, site, fn, construct, ok, detail)
+        res.add(rule, site, fn, construct, ok, detail, nontrivial=ok is not None)
         n += 1
 
     def fn_of(qual: str):
@@ -203,8 +203,12 @@ def add_obligations(res, tree: Tree, rule: str, only_mask_tables: bool = False) 
         lam = lams.get(nm)
         el = lambda_elts(lam) if lam is not None else None
         delta = tuple(delta_int(o) for _, o in offsets(el)) if el else None
-        ok_name = d is not None and delta == CONVENTION[d]
-        ob(f"{f.module.relpath}:{lam.lineno if lam is not None else f.node.lineno}", "routing.connector.utils.move_position", f"lambda {nm} moves '{d}'", ok_name, f"displacement {delta}")
+        ok_name = (delta == CONVENTION[d]) if (d is not None and delta is not None) else None
+        ob(f"{f.module.relpath}:{lam.lineno if lam is not None else f.node.lineno}", "routing.connector.utils.move_position", f"lambda {nm} moves '{d}'", ok_name,
+           f"displacement {delta}" if ok_name is not None else "the lambda's name carries no direction: undecided")
+        # the branch index is tied to the action constant through the displacement when the name is silent
+        if d is None and delta is not None:
+            d = next((k for k, v in CONVENTION.items() if v == delta and k not in ("no_op", "load")), None)
         const_name = {"noop": "NOOP", "no_op": "NOOP"}.get(d, (d or "").upper())
         ok_idx = const_name in cvals and cvals[const_name] == i
         ob(f"{f.module.relpath}:{f.node.lineno}", "routing.connector.utils.move_position", f"branch {i} of the switch is the action constant {const_name}", ok_idx,
@@ -217,15 +221,18 @@ def add_obligations(res, tree: Tree, rule: str, only_mask_tables: bool = False) 
         raise AnalysisError("connector generator _action_from_tuple not found")
     mult = None
     tuples = None
-    for st in ast.walk(g.node):
-        if isinstance(st, ast.Assign) and isinstance(st.targets[0], ast.Name):
-            if st.targets[0].id == "action_multiplier" and isinstance(st.value, ast.Call) and st.value.args and isinstance(st.value.args[0], ast.List):
-                mult = [ast.unparse(x) for x in st.value.args[0].elts]
-            if st.targets[0].id == "actions" and isinstance(st.value, ast.Call) and st.value.args and isinstance(st.value.args[0], ast.List) and tuples is None:
-                tuples = []
-                for x in st.value.args[0].elts:
-                    lits = [fold(tree, g.module, c) for c in ast.walk(x) if isinstance(c, ast.Call) and ast.unparse(c.func).endswith("array")]
-                    tuples.append(tuple(lits[0]) if lits and lits[0] is not None else None)
+    for call in ast.walk(g.node):
+        if not (isinstance(call, ast.Call) and ast.unparse(call.func).endswith("array") and call.args and isinstance(call.args[0], ast.List)):
+            continue
+        elts = call.args[0].elts
+        if elts and all(isinstance(x, ast.Name) and direction_of(x.id) for x in elts) and mult is None:
+            mult = [x.id for x in elts]
+        elif elts and all(any(isinstance(c, ast.Compare) for c in ast.walk(x)) for x in elts) and tuples is None:
+            tuples = []
+            for x in elts:
+                lits = [fold(tree, g.module, c) for c in ast.walk(x) if isinstance(c, ast.Call) and ast.unparse(c.func).endswith("array")]
+                lits = [l for l in lits if isinstance(l, list) and len(l) == 2 and all(isinstance(v, int) for v in l)]
+                tuples.append(tuple(lits[0]) if lits else None)
     if mult is None or tuples is None or len(mult) != len(tuples):
         raise AnalysisError("connector generator _action_from_tuple: multiplier / tuple list not recognised")
     for nm, tp in zip(mult, tuples):
@@ -284,7 +291,7 @@ def add_obligations(res, tree: Tree, rule: str, only_mask_tables: bool = False) 
                 pass
             ob(f"{fi.module.relpath}:{lam.lineno}", "routing.robot_warehouse.utils_agent.get_new_position_after_forward",
                f"branch {i} (Direction.{want[0] if want else '?'}) is a unit step", ok and sorted(abs(x) for x in delta[:2]) == [0, 1], f"displacement {delta}")
-            if nm and direction_of(nm) and d:
+            if nm and direction_of(nm) and d and len(delta) >= 2:
                 ob(f"{fi.module.relpath}:{lam.lineno}", "routing.robot_warehouse.utils_agent.get_new_position_after_forward",
                    f"branch {i} is the lambda named for Direction.{want[0]} and moves '{d}'", direction_of(nm) == d and tuple(delta[:2]) == CONVENTION[d],
                    f"lambda {nm}, displacement {delta[:2]}, convention {CONVENTION[d]}")
